@@ -7,12 +7,14 @@ import Asn1cModel.Proofs.CTables
           and the -print-constraints printer), tied to the C code by the `asn1c` correspondence
           of vlib/props/c09.py.
   Spec  = Spec.Constraint (X.680 set semantics, X.691 10.3 / X.696 8.2 visibility, layouts).
-  Helper lemmas: Proofs/CRange.lean, Proofs/CRangeCompute.lean, Proofs/CTables.lean.
+  Helper lemmas: Proofs/CRange.lean, Proofs/CRangeCompute.lean, Proofs/CRangeChain.lean, Proofs/CTables.lean.
 
   Guard domain of the `_partial` theorems (`DomV`, `NonDeg`, `LitsOK`):
   * chains of serially applied constraints and type references whose members are built from single
-    values, ranges with MIN/MAX, `|`, `^`, `EXCEPT`, parentheses; only the last member may carry an
-    extension marker, and never with additions (finding F11: additions are merged into the root);
+    values, ranges with MIN/MAX, `|`, `^`, `EXCEPT`, parentheses; every member may carry an
+    extension marker (only the last one counts, X.680: the pull-up strips the others) except a
+    non-last own constraint of a referencing type (`own_nonlast_marker_kept_cex`), and never with
+    additions (finding F11: additions are merged into the root);
   * no operand denotes the empty set (X.680 forbids empty results; asn1c's `empty_constraint`
     flag is sticky, see `empty_operand_poisons_union_cex`);
   * every literal lies strictly inside the `intmax_t` range (the two INTMAX tests of `_range_split`
@@ -84,7 +86,7 @@ theorem crange_size_effective_partial {p : Params} (hreq : p.req = .size) (hc : 
     if p.strictOER = true then Repr r (oerVisible ISet.nat (.size a)) ∧ r.Clean
     else Repr r (visible ISet.nat (.size a)) ∧ r.ext = extensible (.size a) ∧ r.notPER = false := by
   obtain ⟨hd, hsp⟩ := domV_of_spec hs
-  have hce : combinedEls a = [lastCT a] := by rw [(combinedEls_dom a hd).1, hsp]; rfl
+  have hce : combinedEls a = [lastCT a] := combinedEls_spec hs
   have hcomb : combined (.size a) = .set [.size (.set [lastCT a])] := by
     show CT.set (removeExtTop (setEls (wrapSet (.size (wrapSet (elemCT a)))))) = _
     rw [wrapSet_spec hs]; rfl
@@ -415,8 +417,20 @@ example :
     computeTop perP (some (combined c)) = .ok { left := .val 3, right := .val 5, ext := true, notOER := true } ∧
     computeTop oerP (some (combined c)) = .ok { left := .val 1, right := .val 20, els := [⟨.val 1, .val 10⟩, ⟨.val 20, .val 20⟩] } := by
   refine ⟨?_, ?_, by decide +kernel, by decide +kernel⟩
-  · simp [DomV, IsChainNoExt, IsLevelNoExt, IsLevelLast, IsSpec, IsElem]
+  · simp [DomV, IsChainAny, IsLevelAny, IsLevelLast, IsSpec, IsElem]
   · simp [LitsOK, EndOK, INTMAX_MIN, INTMAX_MAX]
 
+
+/-- … also with markers that the pull-up strips: `T1 ::= INTEGER (1..10, ...)(2..8, ...)`,
+    `T2 ::= T1 (MIN..5)` is (2..5), not extensible, for PER and OER alike -/
+example :
+    let c := Cons.refine (.serial (.ext (.range (.val 1) (.val 10))) (.ext (.range (.val 2) (.val 8))))
+               (.range .min (.val 5))
+    DomV c ∧ LitsOK c ∧ extensible c = false ∧
+    computeTop perP (some (combined c)) = .ok { left := .val 2, right := .val 5 } ∧
+    computeTop oerP (some (combined c)) = .ok { left := .val 2, right := .val 5 } := by
+  refine ⟨?_, ?_, rfl, by decide +kernel, by decide +kernel⟩
+  · simp [DomV, IsChainAny, IsLevelAny, IsLevelLast, IsSpec, IsElem]
+  · simp [LitsOK, EndOK, INTMAX_MIN, INTMAX_MAX]
 
 end Asn1c.Props.C09
